@@ -209,7 +209,10 @@ def parseEmptyChild (fenv : FEnv) : CTree → Option IVal → DV → Bool → Bo
   | .mk cls fs, pcChild, dvChild, optHere, optional =>
     match parseEmptyFields fenv fs pcChild dvChild optHere with
     | .ok (r, ds) =>
-      if optional && pcChild.isNone && r.allLeavesEq ds then .ok .nul
+      -- `default_is_none`: no default from a caller instance AND none from the field / enclosing defaults
+      -- (the second conjunct exists since the repair of the Optional-with-default_factory defect)
+      let defaultIsNone := pcChild.isNone && (match dvChild with | .present _ => false | _ => true)
+      if optional && defaultIsNone && r.allLeavesEq ds then .ok .nul
       else .ok (.inst cls r)
     | .exit2 => .exit2
     | .raise e => .raise e
